@@ -4,8 +4,8 @@ From Coq Require Import ZArith Bool Ascii String.
 From Coq Require Import List.
 Import ListNotations.
 From Verif Require Import Fmt.TextModel Fmt.TextProofs Fmt.X86FmtModel Fmt.X86FmtProofs Fmt.X86RegTableCheck.
-From Verif Require Import Fmt.X86InstModel Fmt.X86InstProofs Fmt.A64FmtModel Fmt.A64FmtProofs Fmt.A64InstProofs Fmt.LogLine Fmt.LogLineX86 Fmt.LogLineA64 Fmt.LabelVirt Fmt.DataNode Fmt.NodeLine Fmt.InstNamesCheck Fmt.Corollaries Fmt.NameDecode Fmt.X86Explain Fmt.RegList Fmt.RegListAll Fmt.VirtNames Fmt.FuncValue Fmt.LogOptions Fmt.Directives.
-From VerifGen Require Import X86RegTables InstNames InstNameTables.
+From Verif Require Import Fmt.X86InstModel Fmt.X86InstProofs Fmt.A64FmtModel Fmt.A64FmtProofs Fmt.A64InstProofs Fmt.LogLine Fmt.LogLineX86 Fmt.LogLineA64 Fmt.LabelVirt Fmt.DataNode Fmt.NodeLine Fmt.InstNamesCheck Fmt.Corollaries Fmt.NameDecode Fmt.X86Explain Fmt.RegList Fmt.RegListAll Fmt.VirtNames Fmt.FuncValue Fmt.LogOptions Fmt.Directives Fmt.A64Virt Fmt.SourceTablesCheck Fmt.FuncLine Fmt.X86VirtPhys Fmt.Transcript Fmt.A64VirtRead Fmt.A32Regs.
+From VerifGen Require Import X86RegTables InstNames InstNameTables FmtSourceTables X86ExplainTables.
 Local Open Scope Z_scope.
 
 (* String::_op_number: every 64-bit value, bases 2/8/10/16, every combination of the sign/space/alternate/signed flags and
@@ -364,3 +364,92 @@ Theorem C20_label_line : forall indent id pad1 pad2 comment, id_ok id -> comment
   parse_log_line_ind (label_line indent (label_text id) pad1 pad2 true comment) = Some (indent, label_text id ++ [":"%char], [], comment).
 Proof. exact label_line_roundtrip. Qed.
 Print Assumptions C20_label_line.
+
+(* whole AArch64 lines printed through an a64::Compiler (a64_fmt_inst_virt: virtual registers as operands with element suffix / index, as memory
+   base and index): for ANY environment, a line none of whose registers is a virtual register of that environment is exactly the plain line
+   (so every AArch64 line theorem applies to it); in particular with no virtual registers at all *)
+Theorem C20_a64_inst_virt_conservative : forall env fixed f i, Forall (op_phys env) (ai_ops i) -> a64_fmt_inst_virt env fixed f i = a64_fmt_inst fixed f i.
+Proof. exact a64_fmt_inst_virt_phys. Qed.
+Print Assumptions C20_a64_inst_virt_conservative.
+
+Theorem C20_a64_inst_virt_nil : forall fixed f i, a64_fmt_inst_virt [] fixed f i = a64_fmt_inst fixed f i.
+Proof. exact a64_fmt_inst_virt_nil. Qed.
+Print Assumptions C20_a64_inst_virt_nil.
+
+(* the small name tables (per run, T): what arm::FormatterInternal::format_cond_code prints for every condition code 0..17, what format_shift_op
+   prints for every shift / extend operator 0..17 and what Formatter::format_data_type prints for item sizes 1,2,4,8 on x86-64 and AArch64
+   (dumped from the working tree into coq/gen/FmtSourceTables.v) is what the model prints; beyond the tables both print "<Unknown>" *)
+Theorem C20_source_small_tables :
+  (forall k x, nth_error src_cond_names k = Some x -> model_cond (Z.of_nat k) = x) /\
+  (forall k x, nth_error src_shift_names k = Some x -> model_shift (Z.of_nat k) = x) /\
+  (forall k x, nth_error src_words_x64 k = Some x -> s (data_word false (2 ^ Z.of_nat k)) = x) /\
+  (forall k x, nth_error src_words_a64 k = Some x -> s (data_word true (2 ^ Z.of_nat k)) = x) /\
+  length src_cond_names = 18%nat /\ length src_shift_names = 18%nat /\ length src_words_x64 = 4%nat /\ length src_words_a64 = 4%nat.
+Proof. exact (small_tables_sound _ _ _ _ source_small_tables_ok). Qed.
+Print Assumptions C20_source_small_tables.
+
+Theorem C20_names_beyond_tables : (forall c, 16 <= c -> model_cond c = s "<Unknown>") /\ (forall op, 14 <= op -> model_shift op = s "<Unknown>").
+Proof. exact (conj model_cond_beyond model_shift_beyond). Qed.
+Print Assumptions C20_names_beyond_tables.
+
+(* the WHOLE FuncNode line "L1: int32@eax Func(int32@ecx a0, int32x4@[rdx] <none>, float64@[32] %1)" reads back as label id, return value (or
+   void) and the list of arguments, each with the name of the register bound to it (None for "<none>"); type names and register names over characters
+   other than ' ' and ',' (type names without '@' and not "void"), bound names different from "<none>"; x86-64 and AArch64 *)
+Theorem C20_x86_func_line_roundtrip : forall lbl ret args, id_ok lbl ->
+  match ret with Some v => lvalue_ok _ x86_reg_okP v | None => True end -> Forall (arg_ok _ x86_reg_okP) args ->
+  parse_func_line parse_reg_name (fmt_func_node x86_rp lbl (ret_list _ ret) args) = Some (lbl, ret, args).
+Proof. exact x86_func_line_roundtrip. Qed.
+Print Assumptions C20_x86_func_line_roundtrip.
+
+Theorem C20_a64_func_line_roundtrip : forall lbl ret args, id_ok lbl ->
+  match ret with Some v => lvalue_ok _ a64_reg_okP v | None => True end -> Forall (arg_ok _ a64_reg_okP) args ->
+  parse_func_line a64_pr (fmt_func_node a64_rp lbl (ret_list _ ret) args) = Some (lbl, ret, args).
+Proof. exact a64_func_line_roundtrip. Qed.
+Print Assumptions C20_a64_func_line_roundtrip.
+
+(* kExplainImms (per run, T): the function-local tables of x86::FormatterInternal::explain_const, read from the SOURCE TEXT of x86formatter.cpp into
+   coq/gen/X86ExplainTables.v (predicate names of vcmp / vpcmp / vpcom, shuffle lane names, the ImmBits rows of vfpclass, vfixupimm, vgetmant, vmpsadbw,
+   vpclmulqdq, vperm2x128, vrange, vreduce/vrndscale, vround with their masks and shifts), are the tables of the model X86Explain.v *)
+Theorem C20_x86_explain_tables_from_source :
+  src_vcmpx = vcmpx /\ src_vpcmpx = vpcmpx /\ src_vpcomx = vpcomx /\ src_vshufpd = vshufpd_t /\ src_vshufps = vshufps_t /\
+  src_vfpclassxx = vfpclass_s /\ src_vfixupimmxx = vfixupimm_s /\ src_vgetmantxx = vgetmant_s /\ src_vmpsadbw = vmpsadbw_s /\
+  src_vpclmulqdq = vpclmulqdq_s /\ src_vperm2x128 = vperm2x128_s /\ src_vrangexx = vrange_s /\ src_vreducexx_vrndscalexx = vreduce_s /\ src_vroundxx = vround_s.
+Proof. exact explain_tables_ok. Qed.
+Print Assumptions C20_x86_explain_tables_from_source.
+
+(* x86 Compiler lines at full strength: for ANY environment of virtual registers (and any kRegType / kRegCasts), a line none of whose registers -
+   operands, memory base / index, {k} mask or rep register - is a virtual register of that environment, and without home operands, is exactly the plain
+   line: what is not virtual must not change (C20_x86_inst_virt_conservative is the case of the empty environment) *)
+Theorem C20_x86_inst_virt_phys : forall env regtype regcasts f i, x86_inst_phys env i -> fmt_inst_virt env regtype regcasts f i [] = fmt_inst f i.
+Proof. exact fmt_inst_virt_phys. Qed.
+Print Assumptions C20_x86_inst_virt_phys.
+
+(* "the log is a faithful transcript of the code buffer": the log of ANY sequence of emitted instructions (kMachineCode, any paddings, with or without
+   comments) splits back into its lines and every line into text, column and comment ... *)
+Theorem C20_log_roundtrip : forall pad1 pad2 es, Forall emission_ok es ->
+  parse_log (log_of pad1 pad2 es) = Some (map (fun e => (e_text e, fmt_hexcol (e_bytes e) (e_rel e) (e_imm e), e_comment e)) es).
+Proof. exact log_roundtrip. Qed.
+Print Assumptions C20_log_roundtrip.
+
+(* ... and when no displacement was pending the columns, read as bytes, concatenate to exactly the concatenation of the emitted byte strings *)
+Theorem C20_log_denotes_code : forall pad1 pad2 es, Forall emission_ok es -> Forall (fun e => e_rel e = 0%nat) es ->
+  match parse_log (log_of pad1 pad2 es) with
+  | Some ls => columns_bytes (map (fun l => snd (fst l)) ls) = Some (map Some (concat (map e_bytes es)))
+  | None => False
+  end.
+Proof. exact log_denotes_code. Qed.
+Print Assumptions C20_log_denotes_code.
+
+(* AArch64 virtual-register operands ("%3", "ptr", "vacc.4s[2]"): for an environment whose names are non-empty, over [A-Za-z0-9_] and pairwise distinct,
+   the text reads back as the index of the virtual register, its element suffix and its element index (the register type is not in the text:
+   C20_a64_virt_reg_size_refuted) *)
+Theorem C20_a64_virt_reg_roundtrip : forall env, env_ok64 env -> forall i name vt t et ei, nth_error env i = Some (name, vt) -> id_ok (Z.of_nat i) ->
+  match ei with Some e => id_ok e | None => True end ->
+  read_a64_virt env (a64_fmt_virt name (Z.of_nat i) t et ei) = Some (Z.of_nat i, a64_elem_suffix t et, ei).
+Proof. exact read_a64_virt_roundtrip. Qed.
+Print Assumptions C20_a64_virt_reg_roundtrip.
+
+(* AArch32 general-purpose registers print "r<id>" for every id (no sp/lr/pc names) and read back *)
+Theorem C20_a32_gp_roundtrip : forall id, id_ok id -> parse_a32_gp (a32_fmt_reg AGp32 id 0 None) = Some id.
+Proof. exact a32_gp_roundtrip. Qed.
+Print Assumptions C20_a32_gp_roundtrip.
